@@ -11,7 +11,7 @@ from . import common, flow
 LEVEL = "proof"
 TRUSTED = [
     "model: lean/RpyModel/Dataflow.lean (readFb / forwardF / loadProxys / enterFeedback / stepM / shiftForced / runSeq / callModel)",
-    "theorems: lean/RpyProofs/Props/C05.lean (proxies frozen during a step; feedback value fixed at step start wherever the sender stands; every free-running step starts synced, so it is the sender's state of step t-1; forced value read and consumed once; the shift: zero, then Y[t-1], or Y[t])",
+    "theorems: lean/RpyProofs/Props/C05.lean (proxies frozen during a step; feedback value fixed at step start wherever the sender stands; every free-running step starts synced, so it is the sender's state of step t-1; forced value read and consumed once; the shift: zero, then Y[t-1], or Y[t]; sender-side forcing sets the proxy, leaving the context restores every proxy whatever happened inside, and a receiver then reads the sender's current state again)",
     "sub-model senders and list senders are NOT in the model (findings K1, K10): exercised by witnesses only",
     "teacher-forced offline fit (targets as forced feedback, zero at the first step of each sequence) is exercised through C06's fit harness on the feedback topologies",
 ]
